@@ -67,6 +67,7 @@ def gen_spec(rng: np.random.Generator, tier: str, hermitian: bool = True, **forc
         degenerate=bool(rng.integers(0, 2)),
         case=[int(x) for x in rng.integers(0, 2**31, size=3)],
         near_deg=bool(rng.random() < 0.3),
+        symbolic=bool(rng.random() < 0.35),
         offset=int(rng.choice([0, 0, 0, 8192])),
     )
     spec.update(force)
@@ -91,6 +92,11 @@ def normalise(spec: dict, thorough: bool = False) -> dict:
     if spec.get("offset") and spec["design"] == "vectors" and spec["vtype"] != "sympy":
         # rotating a float H_0 of size ~1e4 leaves rounding noise above the library's absolute atol=1e-12
         spec["design"] = "indices"
+    if spec.get("symbolic") and spec["vtype"] == "sympy":
+        if N > 5 or spec["complex"] or spec["design"] == "vectors":
+            spec["symbolic"] = False
+        else:
+            max_total = min(max_total, 2 if N > 3 else 3)
     if not spec.get("max_total"):
         spec["max_total"] = int(max_total)
     spec["max_total"] = int(min(spec["max_total"], max_total))
@@ -428,18 +434,20 @@ def _encode(p: Problem, rng):
             # biorthogonal: R = Q (1 + T) with Q unitary, T strictly upper triangular;
             # L = (R^{-1})^dagger.  Well conditioned and exactly invertible.
             Q0 = _cayley_unitary(rng, p.N, cplx, p.exact)
-            T_re = np.triu(rng.integers(-2, 3, size=(p.N, p.N)), 1)
-            T_im = np.triu(rng.integers(-2, 3, size=(p.N, p.N)), 1) if cplx else np.zeros((p.N, p.N), int)
+            # (entries of T in {-1/4, 0, 1/4}: keeps R = Q (1 + T) well conditioned also for N ~ 10, so that the rounding
+            # noise of L^dagger H_0 R stays far below the library's absolute atol = 1e-12)
+            T_re = np.triu(rng.integers(-1, 2, size=(p.N, p.N)), 1)
+            T_im = np.triu(rng.integers(-1, 2, size=(p.N, p.N)), 1) if cplx else np.zeros((p.N, p.N), int)
             if p.exact:
                 M1 = gr_eye(p.N)
                 for i in range(p.N):
                     for j in range(i + 1, p.N):
-                        M1[i, j] = GR(Fraction(int(T_re[i, j]), 2), Fraction(int(T_im[i, j]), 2))
+                        M1[i, j] = GR(Fraction(int(T_re[i, j]), 4), Fraction(int(T_im[i, j]), 4))
                 Q0g = gr_array(Q0)
                 Q, Qi = gr_to_sympy_matrix(Q0g @ M1), gr_to_sympy_matrix(gr_inv(M1) @ adj(Q0g))
                 Lfull = Qi.H
             else:
-                M1 = np.eye(p.N) + (T_re + 1j * T_im) / 2
+                M1 = np.eye(p.N) + (T_re + 1j * T_im) / 4
                 Q, Qi = Q0 @ M1, np.linalg.inv(M1) @ Q0.conj().T
                 if not cplx:
                     Q, Qi = Q.real, Qi.real
@@ -476,6 +484,39 @@ def _encode(p: Problem, rng):
                     row.append(_value(sub, subx, vtype, cplx))
                 rows.append(row)
             terms_enc[o] = rows
+    if spec.get("symbolic") and p.exact and design in ("indices", "blocks"):
+        # free symbols in H_0 and in the perturbation: t enters every level as E + d*(t - t0) (same d inside a
+        # degenerate level), s multiplies part of the perturbation as (1 + s - s0); at t = t0, s = s0 the input is
+        # the canonical problem, so the outputs with the symbols substituted must equal the reference
+        t, s_ = sympy.Symbol("t", real=True), sympy.Symbol("s", real=True)
+        t0, s0 = sympy.Rational(int(rng.integers(1, 6)), 7), sympy.Rational(int(rng.integers(1, 6)), 5)
+        p.notes["subs"] = {t: t0, s_: s0}
+        levels = {}
+
+        def dress0(M, offset_rows=0, offset_cols=0, square=True):
+            M = M.copy()
+            for i in range(M.rows):
+                e = M[i, i] if square else None
+                if square and i < M.cols:
+                    key = sympy.nsimplify(e)
+                    d = levels.setdefault(key, int(rng.integers(-2, 3)))
+                    M[i, i] = e + d * (t - t0)
+            return M
+
+        def dress1(M):
+            M = M.copy()
+            for i in range(M.rows):
+                for j in range(M.cols):
+                    if (i + j) % 2 == 0 and M[i, j] != 0:
+                        M[i, j] = M[i, j] * (1 + s_ - s0)
+            return M
+
+        for o in list(terms_enc):
+            T = terms_enc[o]
+            if design == "indices":
+                terms_enc[o] = dress0(T) if o == z else dress1(T)
+            else:
+                terms_enc[o] = [[(dress0(T[i][j]) if (o == z and i == j) else (T[i][j] if o == z else dress1(T[i][j]))) for j in range(nb)] for i in range(nb)]
     # container
     if spec["container"] == "list" and set(terms_enc) - {z} == {tuple(int(x) for x in row) for row in np.eye(p.n_par, dtype=int)}:
         ham = [terms_enc[z]] + [terms_enc[tuple(int(x) for x in row)] for row in np.eye(p.n_par, dtype=int)]
@@ -513,6 +554,8 @@ def assemble(series, n, p: Problem, exact: bool):
     for i in range(nb):
         for j in range(nb):
             blk = series[(i, j, *n)]
+            if p.notes.get("subs") and isinstance(blk, (sympy.MatrixBase, sympy.Basic)):
+                blk = blk.subs(p.notes["subs"])  # free (non-perturbative) symbols -> the rationals they stand for
             shape = (p.sizes[i], p.sizes[j])
             out[off[i]:off[i + 1], off[j]:off[j + 1]] = to_exact(blk, shape) if exact else to_dense(blk, shape)
     return out
